@@ -192,14 +192,14 @@ PROPS = {
         "modules": ["SamlModel.Props.C10", "SamlModel.Props.HandlerGen", "SamlModel.Props.SendBack", "SamlModel.Props.LogoutProps", "SamlModel.Props.AttrQueryProps", "SamlModel.Props.SsoProps", "SamlModel.Props.MetadataGen", "SamlModel.Props.Stateless"],
         "translated": ["getResponseCert", "getMetadataCert", "Config_getMetadata", "Provider_GetMetadata", "Provider_metadataHandle"],
         "trusted_base": COMMON_TRUST + SSO_TRUST + CB_TRUST + [
-            "Model.Metadata (metadata / certificate / readiness handlers): hand model tied by fingerprints and its correspondence; in addition Provider.metadataHandle, Provider.GetMetadata, Config.getMetadata and getMetadataCert are translated on every run and MetadataGen.metadataHandle_spec characterises the regenerated handler for every environment (IdentityProvider.GetMetadata, GetMetadataSigningKey, signature.GetSigner / Create, the write error as typed oracles): C10_generated_metadata_key_failure / _signer_failure (no document when the key or the signer fails), C11_generated_signed_iff_configured; Model.Logout, Model.AttrQuery, Model.Sso: tied by the refinement proofs over the regenerated handlers",
+            "Model.Metadata (metadata / certificate / readiness handlers): hand model tied by fingerprints and its correspondence; in addition Provider.metadataHandle, Provider.GetMetadata, Config.getMetadata and getMetadataCert are translated on every run and MetadataGen.metadataHandle_spec characterises the regenerated handler for every environment (IdentityProvider.GetMetadata, GetMetadataSigningKey, signature.GetSigner / Create, the write error as typed oracles): C10_generated_metadata_key_failure / _signer_failure (no document when the key or the signer fails), C11_generated_signed_iff_configured; IdentityProviderConfig.getMetadata / IdentityProvider.GetMetadata / GetEntityID are translated standalone (the loop that blanks attribute values through the pointers of a fresh slice is a map in the value model) and C11_generated_metadata states what the regenerated descriptors advertise: SSO / SLO / attribute locations = the endpoints' absolute URLs for the issuer in effect, WantAuthnRequestsSigned verbatim, every key descriptor = the response signing certificate; Model.Logout, Model.AttrQuery, Model.Sso: tied by the refinement proofs over the regenerated handlers",
             "the fault enumeration on the implementation is exhaustive over (endpoint x storage call occurrence of the fault-free run x fault kind), singly and in pairs, for one valid request shape per endpoint",
         ],
         "assumptions": ["a storage operation either succeeds or returns an error / malformed key record; panics inside storage are the integrator's"],
     },
     "C11": {
         "modules": ["SamlModel.Props.C11", "SamlModel.Props.SendBack", "SamlModel.Props.Stateless", "SamlModel.Props.MetadataGen"],
-        "translated": ["getMetadataCert", "Config_getMetadata", "Provider_GetMetadata", "Provider_metadataHandle", "Endpoint_Absolute", "Endpoint_Relative", "relativeEndpoint", "absoluteEndpoint", "getResponseCert",
+        "translated": ["IdentityProviderConfig_getMetadata", "IdentityProvider_GetEntityID", "IdentityProvider_GetMetadata", "getMetadataCert", "Config_getMetadata", "Provider_GetMetadata", "Provider_metadataHandle", "Endpoint_Absolute", "Endpoint_Relative", "relativeEndpoint", "absoluteEndpoint", "getResponseCert",
                        "signatureRedirectVerificationNecessary", "signaturePostVerificationNecessary", "endpointConfigToEndpoints", "NewEndpoint"],
         "trusted_base": COMMON_TRUST + SSO_TRUST + [
             "Model.Metadata is a hand-written model of getMetadata / GetRoutes / CreateRouter / GetEntityID: tied by fingerprints (C11_source_current) and by the md correspondence (advertised locations and registered routes for every configuration)",
